@@ -1,6 +1,6 @@
 SPECIFICATION Spec
 CONSTANTS
-  Component = "lanelet"
+  Component = "reuse"
   Precisions = {1, 4, 8, 12}
   NMixed = 0
   NShards = 16
